@@ -20,7 +20,7 @@ VARIABLES tid, l,
           bad, badAt,
           conf, confAt,
           ro, rw, files, known, stage, kind, dev, toc, ret, wdir, fsnap, obsL, obsP, roBase,
-          nconn, ncrash, nenv                                                    \* design spec
+          gone, other, nconn, ncrash, nenv, nother                              \* design spec
 
 \* constants of the design spec (the actions used here take their data from the events)
 Crcs == {}
@@ -33,12 +33,14 @@ Bug == "none"
 MaxConnect == 1000000
 MaxCrash == 1000000
 MaxEnv == 1000000
+MaxOther == 1000000
+OtherTables == {}
 
 D == INSTANCE TocCache
 P == INSTANCE TocCacheProps
 
 specvars == <<ro, rw, files, known, stage, kind, dev, toc, ret, wdir, fsnap, obsL, obsP, roBase,
-              nconn, ncrash, nenv>>
+              gone, other, nconn, ncrash, nenv, nother>>
 monvars == <<mro, mrw, mfiles, mrobase, mdev, mfetched, mraised, mfs, mpend, mo>>
 
 T == Traces[tid]
@@ -52,13 +54,19 @@ NoObs == [valid |-> FALSE]
 KBool == [log |-> FALSE, param |-> FALSE]
 MDirs == {mro, mrw} \ {"none"}
 EmptyF == [x \in {} |-> 0]
+\* monitor's files: <<dir, name>> -> [st: "complete"|"damaged", tab, under]; under = the checksum given to
+\* the insert() call whose bytes these are.  What the property sees: a complete file under another name
+\* than it was stored under is "foreign"
+Dmg == [st |-> "damaged", tab |-> <<>>, under |-> ""]
+PV(f) == [x \in DOMAIN f |-> [st |-> IF f[x].st = "complete" /\ f[x].under # x[2] THEN "foreign" ELSE f[x].st,
+                              tab |-> f[x].tab]]
 
 Init == /\ tid \in 1..Len(Traces)
         /\ l = 1
         /\ mro = "none" /\ mrw = "none" /\ mfiles = EmptyF /\ mrobase = {}
         /\ mdev = D!NoDev /\ mfetched = KBool /\ mraised = KBool
         /\ mfs = [log |-> EmptyF, param |-> EmptyF]
-        /\ mpend = <<>>
+        /\ mpend = << <<>>, <<>> >>              \* table handed to insert() by us (1) / by the other cache object (2)
         /\ mo = [log |-> NoObs, param |-> NoObs]
         /\ bad = "ok" /\ badAt = 0
         /\ conf = TRUE /\ confAt = 0
@@ -106,34 +114,66 @@ MissKind(k) == IF k = "falsy" THEN "none" ELSE k
 MFetch == /\ Ev.e = "fetch"
           /\ mfetched' = [mfetched EXCEPT ![Ev.kind] = TRUE]
           /\ mraised' = [mraised EXCEPT ![Ev.kind] = (Ev.ret = "raise")]
-          /\ mfs' = [mfs EXCEPT ![Ev.kind] = mfiles]
+          /\ mfs' = [mfs EXCEPT ![Ev.kind] = PV(mfiles)]
           /\ UNCHANGED <<mro, mrw, mfiles, mrobase, mdev, mpend, mo, bad, badAt>>
           /\ Conform(D!Fetch /\ kind = Ev.kind /\ D!Crc = Ev.crc /\ MissKind(ret'.k) = MissKind(Ev.ret)
                      /\ (Ev.ret = "tab" => ret'.tab = Tab(Ev.tab)))
 
 \* the downloaded table is handed to TocCache.insert
 MDownload == /\ Ev.e = "download"
-             /\ mpend' = Tab(Ev.tab)
+             /\ mpend' = [mpend EXCEPT ![1] = Tab(Ev.tab)]
              /\ UNCHANGED <<mro, mrw, mfiles, mrobase, mdev, mfetched, mraised, mfs, mo, bad, badAt>>
              /\ Conform(D!Download /\ kind = Ev.kind /\ toc'[Ev.kind] = Tab(Ev.tab))
 
-\* open(name, 'w') succeeded: the file exists and is empty
-MIBegin == /\ Ev.e = "ibegin"
-           /\ mfiles' = (<<Ev.dir, Ev.crc>> :> [st |-> "damaged", tab |-> <<>>]) @@ mfiles
-           /\ UNCHANGED <<mro, mrw, mrobase, mdev, mfetched, mraised, mfs, mpend, mo, bad, badAt>>
-           /\ Conform(D!InsertBegin /\ wdir' = Ev.dir /\ D!Crc = Ev.crc)
+RoBase == mrobase' = IF Ev.rb THEN ToSet(Ev.robase) ELSE mrobase
 
-\* k of the `of` bytes the code writes are on disk
+\* the other cache object on the directory hands a table to ITS insert()
+MOdl == /\ Ev.e = "odl"
+        /\ mpend' = [mpend EXCEPT ![2] = Tab(Ev.tab)]
+        /\ UNCHANGED <<mro, mrw, mfiles, mrobase, mdev, mfetched, mraised, mfs, mo, bad, badAt>>
+        /\ ConformCond(TRUE)
+
+\* open(name, 'w') succeeded: the file exists and is empty (who = 1: our process, 2: the other one)
+MIBegin == /\ Ev.e = "ibegin"
+           /\ mfiles' = (<<Ev.dir, Ev.crc>> :> Dmg) @@ mfiles
+           /\ RoBase
+           /\ UNCHANGED <<mro, mrw, mdev, mfetched, mraised, mfs, mpend, mo, bad, badAt>>
+           /\ IF Ev.who = 1 THEN Conform(D!InsertBegin /\ wdir' = Ev.dir /\ D!Crc = Ev.crc)
+              ELSE Conform(D!OtherBegin(<<Ev.dir, Ev.crc>>, mpend[2]))
+
+\* k of the `of` bytes the code writes are on disk; icrc = the checksum that insert() call was given
 MWByte == /\ Ev.e = "wbyte"
-          /\ mfiles' = (<<Ev.dir, Ev.crc>> :> (IF Ev.k = Ev.of THEN [st |-> "complete", tab |-> mpend]
-                                                ELSE [st |-> "damaged", tab |-> <<>>])) @@ mfiles
-          /\ UNCHANGED <<mro, mrw, mrobase, mdev, mfetched, mraised, mfs, mpend, mo, bad, badAt>>
-          /\ Conform(D!WriteByte /\ wdir = Ev.dir /\ D!Crc = Ev.crc
-                     /\ files'[<<Ev.dir, Ev.crc>>].cut = Ev.cut)
+          /\ mfiles' = (<<Ev.dir, Ev.crc>> :> (IF Ev.k = Ev.of
+                                                THEN [st |-> "complete", tab |-> mpend[Ev.who], under |-> Ev.icrc]
+                                                ELSE Dmg)) @@ mfiles
+          /\ RoBase
+           /\ UNCHANGED <<mro, mrw, mdev, mfetched, mraised, mfs, mpend, mo, bad, badAt>>
+          /\ IF Ev.who = 1
+             THEN Conform(D!WriteByte /\ wdir = Ev.dir /\ D!Crc = Ev.crc /\ files'[<<Ev.dir, Ev.crc>>].cut = Ev.cut)
+             ELSE Conform(D!OtherWrite /\ other.x = <<Ev.dir, Ev.crc>> /\ files'[<<Ev.dir, Ev.crc>>].cut = Ev.cut)
+
+\* os.replace / os.rename inside the cache code: the target name now holds what the source held
+MRename == /\ Ev.e = "rename"
+           /\ LET src == <<Ev.dir, Ev.from>> dst == <<Ev.dir, Ev.crc>> IN
+              mfiles' = IF src \in DOMAIN mfiles
+                        THEN (dst :> mfiles[src]) @@ [y \in DOMAIN mfiles \ {src} |-> mfiles[y]]
+                        ELSE mfiles
+           /\ RoBase
+           /\ UNCHANGED <<mro, mrw, mdev, mfetched, mraised, mfs, mpend, mo, bad, badAt>>
+           /\ ConformCond(FALSE)                   \* the design spec (Bug = "none") stores without renaming
 
 MIEnd == /\ Ev.e = "iend"
          /\ UNCHANGED <<monvars, bad, badAt>>
          /\ Conform(D!InsertEnd /\ known' = Pairs(Ev.known))
+
+MOEnd == /\ Ev.e = "oend"
+         /\ UNCHANGED <<monvars, bad, badAt>>
+         /\ Conform(D!OtherEnd)
+
+\* open(name, 'w') raised inside insert() and insert() returned
+MIFail == /\ Ev.e = "ifail"
+          /\ UNCHANGED <<monvars, bad, badAt>>
+          /\ Conform(D!InsertFail)
 
 MNoInsert == /\ Ev.e = "noinsert"
              /\ UNCHANGED <<monvars, bad, badAt>>
@@ -182,14 +222,13 @@ MClose == /\ Ev.e = "close"
 \*      rb = a process is alive and has a read-only directory: its content after the environment's
 \*      change is the new base of the never-written comparison
 X == <<Ev.dir, Ev.crc>>
-RoBase == mrobase' = IF Ev.rb THEN ToSet(Ev.robase) ELSE mrobase
 MCut == /\ Ev.e = "cut"
-        /\ mfiles' = IF Ev.k < Ev.of THEN [mfiles EXCEPT ![X] = [st |-> "damaged", tab |-> <<>>]] ELSE mfiles
+        /\ mfiles' = IF Ev.k < Ev.of THEN [mfiles EXCEPT ![X] = Dmg] ELSE mfiles
         /\ RoBase
         /\ UNCHANGED <<mro, mrw, mdev, mfetched, mraised, mfs, mpend, mo, bad, badAt>>
         /\ IF Ev.k < Ev.of THEN Conform(D!Truncate(X, Ev.cut)) ELSE ConformCond(TRUE)
 MGarbage == /\ Ev.e = "garbage"
-            /\ mfiles' = (X :> [st |-> "damaged", tab |-> <<>>]) @@ mfiles
+            /\ mfiles' = (X :> Dmg) @@ mfiles
             /\ RoBase
             /\ UNCHANGED <<mro, mrw, mdev, mfetched, mraised, mfs, mpend, mo, bad, badAt>>
             /\ Conform(D!Corrupt(X, Ev.flavour))
@@ -204,11 +243,24 @@ MCopy == /\ Ev.e = "copy"
          /\ UNCHANGED <<mro, mrw, mdev, mfetched, mraised, mfs, mpend, mo, bad, badAt>>
          /\ Conform(D!Copy(X, Ev.to))
 
+\* the whole directory is removed / the name of a cache file is taken by a directory
+MRmdir == /\ Ev.e = "rmdir"
+          /\ mfiles' = [y \in {z \in DOMAIN mfiles : z[1] # Ev.dir} |-> mfiles[y]]
+          /\ RoBase
+          /\ UNCHANGED <<mro, mrw, mdev, mfetched, mraised, mfs, mpend, mo, bad, badAt>>
+          /\ Conform(D!RemoveDir(Ev.dir))
+MBlock == /\ Ev.e = "blockname"
+          /\ mfiles' = (X :> Dmg) @@ mfiles
+          /\ RoBase
+          /\ UNCHANGED <<mro, mrw, mdev, mfetched, mraised, mfs, mpend, mo, bad, badAt>>
+          /\ Conform(D!BlockName(X))
+
 Step == /\ l <= Len(T.ev)
         /\ l' = l + 1 /\ UNCHANGED tid
         /\ \/ MStart \/ MEnd \/ MConnect \/ MFetch \/ MDownload \/ MIBegin \/ MWByte \/ MIEnd
            \/ MNoInsert \/ MDone \/ MConnected \/ MSettle \/ MClose
-           \/ MCut \/ MGarbage \/ MRemove \/ MCopy
+           \/ MCut \/ MGarbage \/ MRemove \/ MCopy \/ MRmdir \/ MBlock
+           \/ MOdl \/ MRename \/ MOEnd \/ MIFail
 
 Finish == /\ l = Len(T.ev) + 1
           /\ l' = l + 1
